@@ -46,7 +46,13 @@ def run(ctx):
                  ("MassFunction", {"hmf_model": "SMT"}, {"mdef_model": ["SOVirial", None, "SOMean"], "z": [0.0, 1.0]}, ["dndm"], "display", False),
                  # values that agree to several significant digits still identify different combinations
                  ("MassFunction", {}, {"delta_c": [1.686, 1.68647, 1.6864700001], "z": [0.0, 1.0]}, ["dndm"], "display", False),
-                 ("Transfer", {}, {"sigma_8": [0.8, 0.80004], "cosmo_params": [{"Om0": 0.3}, {"Om0": 0.30001}]}, ["power"], "filename", False)]
+                 ("Transfer", {}, {"sigma_8": [0.8, 0.80004], "cosmo_params": [{"Om0": 0.3}, {"Om0": 0.30001}]}, ["power"], "filename", False),
+                 # an empty dict among dict-valued elements, reached after a non-empty one (alone and as the inner loop of a grid)
+                 ("MassFunction", {"hmf_model": "SMT"}, {"hmf_params": [{"a": 0.8}, {}]}, ["dndm"], "display", False),
+                 ("MassFunction", {"hmf_model": "SMT"}, {"hmf_params": [{"a": 0.8}, {}, {"a": 0.75}], "z": [0.0, 1.0]}, ["dndm"], "display", False),
+                 # a list of models next to a scalar (non-list) companion *_params given by the caller: the scalar applies to every combination
+                 ("MassFunction", {"mdef_params": {"overdensity": 300}, "hmf_model": "Tinker08"}, {"mdef_model": ["SOMean", "SOCritical"]}, ["dndm"], "display", False),
+                 ("Transfer", {"cosmo_params": {"Om0": 0.35}}, {"cosmo_model": ["Planck13", "WMAP7"]}, ["power"], "display", False)]
         for case in range(len(fixed) + (16 if quick else 150)):
             if case < len(fixed):
                 cn, extra, lists, qs, label_kind, tup_ = fixed[case]
